@@ -448,22 +448,29 @@ func c03GateInAllVoteRules(c *Ctx, gid string) bool {
 // trueEdges returns, for a bool-returning function, the fact sets of every way the
 // function can return true: returns of the constant true, of a non-constant value
 // (with the fact that it is true unknown), and phi edges carrying true.
-func trueEdges(fl *Flow) []FactSet {
+func trueEdges(fl *Flow) []FactSet { return boolEdges(fl, true) }
+
+// boolEdges: the fact sets under which the boolean function fl.Fn returns `truth`, one per way.
+func boolEdges(fl *Flow, truth bool) []FactSet {
 	var out []FactSet
 	for _, r := range returnsOf(fl.Fn) {
 		if !fl.Reachable(r.Block()) || len(r.Results) == 0 {
 			continue
 		}
-		out = append(out, trueWays(fl, r.Results[0], fl.At(r), r.Block(), 0)...)
+		out = append(out, boolWays(fl, r.Results[0], fl.At(r), r.Block(), 0, truth)...)
 	}
 	return out
 }
 
 func trueWays(fl *Flow, v ssa.Value, at FactSet, blk *ssa.BasicBlock, depth int) []FactSet {
-	if isBoolConst(v, true) {
+	return boolWays(fl, v, at, blk, depth, true)
+}
+
+func boolWays(fl *Flow, v ssa.Value, at FactSet, blk *ssa.BasicBlock, depth int, truth bool) []FactSet {
+	if isBoolConst(v, truth) {
 		return []FactSet{at}
 	}
-	if isBoolConst(v, false) {
+	if isBoolConst(v, !truth) {
 		return nil
 	}
 	if ph, ok := v.(*ssa.Phi); ok && depth < 4 {
@@ -473,14 +480,14 @@ func trueWays(fl *Flow, v ssa.Value, at FactSet, blk *ssa.BasicBlock, depth int)
 			if !fl.Reachable(pred) {
 				continue
 			}
-			out = append(out, trueWays(fl, e, fl.AtEdge(pred, ph.Block()), pred, depth+1)...)
+			out = append(out, boolWays(fl, e, fl.AtEdge(pred, ph.Block()), pred, depth+1, truth)...)
 		}
 		return out
 	}
-	// non-constant: true iff the value's own condition holds
+	// non-constant: `truth` iff the value's own condition holds that way
 	s := at.clone()
 	var fs []Fact
-	fl.decompose(v, true, &fs)
+	fl.decompose(v, truth, &fs)
 	for _, f := range fs {
 		s[f] = true
 	}
